@@ -17,6 +17,7 @@ from .. import common as C
 from .. import exact as X
 from .. import zoo as Z
 from ..runner import Checker, Fail, Law, Skip, call
+from .c01 import as_int
 from .c10 import UNIT
 
 RULE = (
@@ -46,7 +47,7 @@ def img(t, p):
 def basic_case(draw, tier="quick"):
     what = draw(st.sampled_from(["translation", "rotation2", "rotation3", "scaling", "reflection2", "reflection3", "affine", "identity"]))
     return {"what": what, "v": [draw(C.ints(9)) for _ in range(16)], "a": draw(st.integers(-23, 23)), "b": draw(st.integers(-23, 23)),
-            "form": draw(st.sampled_from(["tuple", "point"])), "s": draw(C.scale()), "through_origin": draw(st.booleans())}
+            "form": draw(st.sampled_from(["tuple", "point"])), "s": draw(C.scale()), "through_origin": draw(st.booleans()), "idt": draw(st.booleans())}
 
 
 def run_basic(c):
@@ -55,7 +56,7 @@ def run_basic(c):
     if what == "translation":
         d = 2 + (v[15] % 2)
         off = np.array(v[:d], float)
-        arg = tuple(off) if c["form"] == "tuple" else (P(off, C.scale_value(c["s"])),)
+        arg = tuple(off) if c["form"] == "tuple" else (Point(as_int(np.append(off, 1.0) * C.scale_value(c["s"]), c.get("idt"))),)
         t, f = call("translation", translation, *arg)
         if f:
             return [f]
@@ -96,7 +97,7 @@ def run_basic(c):
         ax = np.array(v[:3], float)
         if not np.any(ax):
             raise Skip("zero axis")
-        axis = P(ax, C.scale_value(c["s"])) if c["form"] == "tuple" else Point(np.append(ax, 0.0))
+        axis = Point(as_int(np.append(ax, 1.0) * C.scale_value(c["s"]), c.get("idt"))) if c["form"] == "tuple" else Point(as_int(np.append(ax, 0.0), c.get("idt")))
         if c["form"] == "point":
             # a point at infinity as axis: normalized_array is the raw array
             pass
@@ -136,7 +137,7 @@ def run_basic(c):
             raise Skip("zero normal")
         a = np.zeros(d) if c["through_origin"] else np.array(v[d : 2 * d], float)
         s = C.scale_value(c["s"])
-        h = (Line if d == 2 else Plane)(np.append(nrm, -np.dot(nrm, a)) * s)
+        h = (Line if d == 2 else Plane)(as_int(np.append(nrm, -np.dot(nrm, a)) * s, c.get("idt")))
         t, f = call("reflection", reflection, h)
         if f:
             return [f]
@@ -306,7 +307,7 @@ def run_conics(c):
 
 
 LAWS = [
-    Law("constructors", lambda tier: basic_case(tier), run_basic, basic_nontrivial, lambda c: [c["what"], c["form"]], {"quick": 2500, "thorough": 40000},
+    Law("constructors", lambda tier: basic_case(tier), run_basic, basic_nontrivial, lambda c: [c["what"], c["form"], "int-dtype" if c.get("idt") else "float-dtype"], {"quick": 2500, "thorough": 40000},
         "translation, rotation (2D, axis), scaling, reflection, affine_transform, identity vs Cartesian closed forms", shard=400),
     Law("from_points", lambda tier: frame_case(tier), run_frame, lambda c: True, frame_labels, {"quick": 1200, "thorough": 20000},
         "Transformation.from_points maps each of the n+2 source points to its target", shard=400, mandatory=("has-infinite", "d2", "d3")),
